@@ -41,7 +41,9 @@ const SINKS: [&str; 11] = ["enumeration-value", "facet-value", "documentation", 
 
 /// names that are legal XML NCNames but stress identifier mapping
 fn odd_names() -> Vec<&'static str> {
-    vec!["a.b", "a-b", "x.y-z", "_lead", "\u{e9}\u{fc}", "\u{dc}n\u{ef}", "a1.2b", "A", "a", "_", "__x", "x__y", "Ab.Cd-Ef_gh"]
+    // (the last four hold characters that count as alphanumeric but may not stand in a Rust identifier:
+    // superscript two, circled one, vulgar fraction, and a Roman numeral letter that may)
+    vec!["a.b", "a-b", "x.y-z", "_lead", "\u{e9}\u{fc}", "\u{dc}n\u{ef}", "a1.2b", "A", "a", "_", "__x", "x__y", "Ab.Cd-Ef_gh", "a\u{b2}b", "x\u{2460}y", "m\u{bc}", "Kapitel\u{2167}"]
 }
 
 /// names that the generated code itself uses unqualified (std prelude, imported items, derive names)
@@ -340,7 +342,7 @@ pub fn check(tier: &str) -> i32 {
         match res.compile_errors.get(&b.id) {
             Some(ds) => {
                 let d = &ds[0];
-                agg.add(mk("out.compile").ctx("code", &d.code).exp("the output compiles").act(format!("{} | line {}: {}", d.message, d.line, d.snippet)));
+                agg.add(mk("out.compile").ctx("code", &d.code).ctx("derive", if d.message.contains("proc-macro derive panicked") { "panicked" } else { "n/a" }).exp("the output compiles").act(format!("{} | line {}: {}", d.message, d.line, d.snippet)));
             }
             None => {
                 compiled_ok += 1;
